@@ -1,4 +1,4 @@
-//go:build verif && verifint
+//go:build verif && vi_ce_c18
 
 package ce
 
